@@ -90,4 +90,31 @@ def command (out : Nat → Outcome) (n w : Nat) (sched : List Nat) : Verdict :=
   if w = 0 then (syncRun ((List.range n).map out)).1
   else managerExit none ((poolRun out n w sched).map (·.2))
 
+/-! ## what `__exit__` does to the shared progress counter
+
+The counter is a `multiprocessing.Value`; `update_progress` (workers) and `get_progress` (the driver's
+progress thread, and `__exit__` itself once more) take its lock.  A worker killed inside
+`update_progress` never releases it: from then on every step that needs the lock blocks forever. -/
+
+inductive ExitStep
+  | waitFutures | cancelFutures | setCompleted | shutdown | joinProgress | readProgress | closeBar
+  deriving DecidableEq, Repr
+
+/-- the steps `ParallelWorkManager.__exit__` performs.  `bodyRaised`: the `with` body raised (e.g.
+    `results_as_completed` met a failed future); `waitRaises`: `wait_on_futures` raises and the
+    exception leaves `__exit__` at once.  `repaired = false` is the code before fix F13. -/
+def exitSteps (repaired bodyRaised waitRaises : Bool) : List ExitStep :=
+  if bodyRaised then
+    [.cancelFutures, .setCompleted, .shutdown] ++ (if repaired then [] else [.joinProgress, .readProgress]) ++ [.closeBar]
+  else if waitRaises then [.waitFutures]
+  else [.waitFutures, .setCompleted, .shutdown, .joinProgress, .readProgress, .closeBar]
+
+/-- joining the progress thread waits for its `get_progress`; reading the counter takes the lock -/
+def ExitStep.needsLock : ExitStep → Bool
+  | .joinProgress | .readProgress => true
+  | _ => false
+
+/-- `__exit__` blocks forever iff it reaches a step that needs the lock while a dead worker holds it -/
+def exitHangs (lockLost : Bool) (steps : List ExitStep) : Bool := lockLost && steps.any ExitStep.needsLock
+
 end B2Z.Sched
